@@ -195,6 +195,7 @@ def run(ctx):
     jobs = [dict(cfg=cfg, maxlen=ml, workers=4) for cfg, ml in lens.items()]
     jobs.append(dict(cfg="alu", maxlen=0, name="alu_vectors", spec="FSpec", workers=6))
     jobs.append(dict(cfg="struct", maxlen=0, name="structured", spec="FSpec", workers=6))
+    jobs.append(dict(cfg="stress", maxlen=0, name="stress", spec="FSpec", workers=2))
     jobs.append(dict(cfg="witness", maxlen=0, name="witnesses", spec="FSpec", workers=1))
     with ThreadPoolExecutor(max_workers=4) as ex:
         results = list(ex.map(lambda kw: gen_programs(ctx, **kw), jobs))
@@ -253,7 +254,8 @@ def run(ctx):
         ctx.sample({"kind": "generated program run on the engine under 6 configurations", "family": p.get("family"),
                     "body": show_body(p["body"]), "runs": [{"args": r["args"], "expected": {k: r["out"].get(k) for k in ("status", "res", "w0", "w1", "trapk")}} for r in p["runs"][:2]]})
     ctx.rule = ("all well-typed function bodies over six focused instruction alphabets up to a length bound (TLC enumerates them with the Wasm validation "
-                "algorithm as the generation guard), ALU vectors over boundary operands, and random longer bodies over the union alphabet; each body is placed in "
+                "algorithm as the generation guard), ALU vectors over boundary operands, structured and register-allocation stress bodies (control skeletons with snippet holes; values pushed before "
+                "a skeleton that writes the locals they refer to), and random longer bodies over the union alphabet; each body is placed in "
                 "the module template, executed by the reference semantics WasmSem in TLC on 4 argument vectors, and run on the real engine under "
                 "ValidationConfig V0/V1 x {no metering, cost V0, cost V1}. distinct = distinct module binaries; every program contains at least one "
                 "instruction besides the final end")
